@@ -21,6 +21,26 @@ type storeOp struct {
 	Var   string `json:"var"` // PK KEK db dbx OrdA OrdB
 	Value string `json:"value,omitempty"`
 	Key   int    `json:"key,omitempty"`
+	// how the caller describes the variable: "" the package-level efivar definition (or, for the ordinary variables,
+	// the harness's own), "own" an Efivar value the caller built itself: equal name, an equal GUID obtained from the
+	// canonical text (util.StringToGUID, as when a file name of efivarfs is parsed), equal attributes; "copy" a copy of
+	// the definition whose GUID is a fresh copy of the pointed-to value
+	Desc string `json:"desc,omitempty"`
+}
+
+// the same variable as storeVar(name), described by a value the caller built
+func storeVarDesc(name, desc string) efivar.Efivar {
+	v := storeVar(name)
+	switch desc {
+	case "own":
+		return efivar.Efivar{Name: string(append([]byte{}, v.Name...)), GUID: util.StringToGUID(canonGUIDText(*v.GUID)), Attributes: v.Attributes}
+	case "copy":
+		g := *v.GUID
+		w := v
+		w.GUID = &g
+		return w
+	}
+	return v
 }
 
 var ordGUID = util.EFIGUID{Data1: 0x11223344, Data2: 0x5566, Data3: 0x7788, Data4: [8]byte{1, 2, 3, 4, 5, 6, 7, 8}}
@@ -45,7 +65,19 @@ func storeVar(name string) efivar.Efivar {
 
 func isSecureBootVar(n string) bool { return n == "PK" || n == "KEK" || n == "db" || n == "dbx" }
 
-func storeRead(fs *efivarfs.Efivarfs, name string) string {
+func storeRead(fs *efivarfs.Efivarfs, name, desc string) string {
+	if isSecureBootVar(name) && desc != "" {
+		// read through the caller's own description of the variable, decoded as a signature database
+		db := signature.NewSignatureDatabase()
+		if err := fs.GetVar(storeVarDesc(name, desc), db); err != nil {
+			var pv probeValue
+			if rerr := fs.GetVar(storeVarDesc(name, desc), &pv); rerr == nil {
+				return "raw " + hx(pv.got)
+			}
+			return "err"
+		}
+		return "ok " + hx(db.Bytes())
+	}
 	if isSecureBootVar(name) {
 		var db *signature.SignatureDatabase
 		var err error
@@ -71,7 +103,7 @@ func storeRead(fs *efivarfs.Efivarfs, name string) string {
 		return "ok " + hx(db.Bytes())
 	}
 	var pv probeValue
-	if err := fs.GetVar(storeVar(name), &pv); err != nil {
+	if err := fs.GetVar(storeVarDesc(name, desc), &pv); err != nil {
 		return "err"
 	}
 	return "ok " + hx(pv.got)
@@ -92,7 +124,7 @@ func init() {
 		fs := t.With(files).Open()
 		var out []string
 		for _, op := range ops {
-			v := storeVar(op.Var)
+			v := storeVarDesc(op.Var, op.Desc)
 			switch op.K {
 			case "W":
 				var err error
@@ -111,7 +143,7 @@ func init() {
 				}
 				out = append(out, errCls(fs.WriteSignedUpdate(v, m, key, cert)))
 			case "G":
-				out = append(out, storeRead(fs, op.Var))
+				out = append(out, storeRead(fs, op.Var, op.Desc))
 			}
 		}
 		return "ok", strings.Join(out, "/")
@@ -250,16 +282,26 @@ func c12Gen(c *Ctx) {
 			if isSecureBootVar(v) {
 				val = dbs[c.Rng.Intn(len(dbs))]
 			}
+			var op map[string]interface{}
 			switch k := c.Rng.Intn(10); {
 			case k < 4:
-				ops = append(ops, map[string]interface{}{"k": "W", "var": v, "value": val})
+				op = map[string]interface{}{"k": "W", "var": v, "value": val}
 			case k < 5 && !c.Thorough && i%4 != 0:
-				ops = append(ops, map[string]interface{}{"k": "G", "var": v})
+				op = map[string]interface{}{"k": "G", "var": v}
 			case k < 6 && isSecureBootVar(v): // signed updates of secure-boot variables (the property's domain)
-				ops = append(ops, map[string]interface{}{"k": "S", "var": v, "value": val, "key": 0})
+				op = map[string]interface{}{"k": "S", "var": v, "value": val, "key": 0}
 			default:
-				ops = append(ops, map[string]interface{}{"k": "G", "var": v})
+				op = map[string]interface{}{"k": "G", "var": v}
 			}
+			// a variable is its name and vendor GUID: in two histories out of three some operations describe the
+			// variable with an Efivar value the caller built (equal name, GUID, attributes) instead of the
+			// package-level definition
+			if i%3 != 0 {
+				if d := []string{"", "", "own", "own", "copy"}[c.Rng.Intn(5)]; d != "" {
+					op["desc"] = d
+				}
+			}
+			ops = append(ops, op)
 		}
 		pre := map[string]interface{}{}
 		if c.Rng.Intn(3) == 0 {
@@ -274,7 +316,7 @@ func c12Gen(c *Ctx) {
 
 func init() {
 	register("C12", &PropDef{
-		Rule:   "histories of 2..10 (thorough ..30) operations over {PK, KEK, db, dbx, two ordinary variables, one ordinary variable declared with attribute mask 0}: plain writes, signed updates (RSA-2048) and reads; values that grow, shrink (to the empty database / empty value) and repeat (5 databases from empty to two lists with certificates, 5 raw values from 0 to 300 bytes); empty and pre-populated stores (With(...)); run in a worker process because a write may end the process on an unrepaired tree. Every read is compared with the register oracle and the Lean store model. Non-trivial: at least two operations; distinct = distinct histories.",
+		Rule:   "histories of 2..10 (thorough ..30) operations over {PK, KEK, db, dbx, two ordinary variables, one ordinary variable declared with attribute mask 0}: plain writes, signed updates (RSA-2048) and reads, each operation describing its variable either with the package-level efivar definition or (in two histories out of three, mixed within the history) with a caller-built Efivar value of equal name, GUID (util.StringToGUID of the canonical text, or a copy of the GUID value) and attributes, reads then going through GetVar with that description; values that grow, shrink (to the empty database / empty value) and repeat (5 databases from empty to two lists with certificates, 5 raw values from 0 to 300 bytes); empty and pre-populated stores (With(...)); run in a worker process because a write may end the process on an unrepaired tree. Every read is compared with the register oracle and the Lean store model. Non-trivial: at least two operations; distinct = distinct histories.",
 		Assume: []string{"variables without the APPEND_WRITE attribute (the property's register semantics)", "values of secure-boot variables are well-formed signature databases (any list type of ValidEFISignatureSchemes, including types the decoder does not handle; those are compared as bytes)"},
 		Eval:   c12Eval, Gen: c12Gen,
 	})
